@@ -18,18 +18,20 @@ EXTENDS HistSem, TLC, Json
 
 CONSTANTS Weights,      \* weights of histogram.fill
           MaxFills,     \* length of the fill histories
-          EdgeChoices   \* set of edge configurations (1 to 3 dimensions)
+          EdgeChoices,  \* set of edge configurations (1 to 3 dimensions)
+          Twin          \* TRUE: a second histogram made from the SAME edges object is filled in between
 
 VARIABLES kind,    \* "structure" | "element"
           edges,   \* the mesh
           bins,    \* nested sequences of cell contents          (histogram.bins)
           oor,     \* weight filled outside the edges            (histogram.n_out_of_range)
           total,   \* ghost: total filled weight
+          bins2, oor2, total2,   \* the twin histogram (only with Twin)
           n,       \* ghost: number of fills
           h        \* ghost: history for export (hidden by the VIEW of the MC configs)
 
-vars == <<kind, edges, bins, oor, total, n, h>>
-view == <<kind, edges, bins, oor, total, n>>
+vars == <<kind, edges, bins, oor, total, bins2, oor2, total2, n, h>>
+view == <<kind, edges, bins, oor, total, bins2, oor2, total2, n>>
 
 Inc(S, lens) == IncSeqs(S, lens)
 Even(g) == {2 * k : k \in 0..(g - 1)}
@@ -37,11 +39,14 @@ D1(A) == {<<a>> : a \in A}
 D2(A, B) == {<<a, b>> : a \in A, b \in B}
 D3(A, B, C) == {<<a, b, c>> : a \in A, b \in B, c \in C}
 Small == Inc(Even(3), 2..3)                        \* 0-2, 0-4, 2-4, 0-2-4
-EdgesQuick == D1(Inc(Even(5), 2..5)) \cup D2(Small, Small) \cup D3({<<0, 2, 4>>, <<0, 4>>}, {<<0, 2, 4>>}, {<<2, 4>>})
+OneCell3 == D3({<<0, 2>>}, {<<2, 4>>}, {<<0, 4>>})                 \* a single cell in three dimensions
+EdgesQuick == D1(Inc(Even(5), 2..5)) \cup D2(Small, Small) \cup D3({<<0, 2, 4>>, <<0, 4>>}, {<<0, 2, 4>>}, {<<2, 4>>}) \cup OneCell3
 EdgesThorough == D1(Inc(Even(6), 2..6)) \cup D2(Inc(Even(4), 2..4), Small) \cup D3({<<0, 2, 4>>, <<0, 4>>}, {<<0, 2, 4>>, <<2, 4>>}, {<<0, 2, 4>>, <<0, 4>>})
-EdgesExport == D1(Inc(Even(6), 2..6)) \cup D2(Small, Small) \cup D3({<<0, 2, 4>>, <<0, 4>>}, {<<0, 2, 4>>}, {<<0, 2, 4>>, <<2, 4>>})
+EdgesExport == D1(Inc(Even(6), 2..6)) \cup D2(Small, Small) \cup D3({<<0, 2, 4>>, <<0, 4>>}, {<<0, 2, 4>>}, {<<0, 2, 4>>, <<2, 4>>}) \cup OneCell3
 EdgesHist == D1({<<0, 2>>, <<0, 2, 4, 6>>, <<0, 2, 8, 10, 12>>, <<0, 10, 12>>}) \cup D2(Small, {<<0, 2, 4>>, <<0, 6>>})
              \cup D3({<<0, 2, 4>>}, {<<0, 2, 4>>, <<0, 4>>}, {<<0, 2, 4>>})
+
+EdgesTwin == D1({<<0, 2>>, <<0, 2, 8, 10>>}) \cup D2({<<0, 2, 4>>}, {<<0, 4>>}) \cup OneCell3
 
 W3 == {1, 2, -1}
 W4 == {1, 2, -1, 0}
@@ -56,24 +61,38 @@ Coords(E) == CASE Len(E) = 1 -> {<<x>> : x \in CoordVals(E[1])}
 
 Init == /\ kind \in {"structure", "element"}
         /\ edges \in EdgeChoices
-        /\ bins = InitBins(edges, 1, 0)
-        /\ oor = 0 /\ total = 0 /\ n = 0 /\ h = <<>>
+        /\ bins = InitBins(edges, 1, 0) /\ oor = 0 /\ total = 0
+        /\ bins2 = InitBins(edges, 1, 0) /\ oor2 = 0 /\ total2 = 0
+        /\ n = 0 /\ h = <<>>
 
-\* the common body: histogram.fill(coord, weight)
-DoFill(c, w) ==
-  LET r == FillOp(bins, oor, edges, c, w) IN
+Whichs == IF Twin THEN {1, 2} ELSE {1}
+\* the common body: histogram.fill(coord, weight) on histogram number `which`
+DoFill(c, w, which) ==
+  LET r == FillOp(IF which = 1 THEN bins ELSE bins2, IF which = 1 THEN oor ELSE oor2, edges, c, w) IN
   /\ n < MaxFills
-  /\ bins' = r.bins /\ oor' = r.oor
-  /\ total' = total + w /\ n' = n + 1
-  /\ h' = Append(h, [c |-> c, w |-> w, idx |-> IdxVec(c, edges), bins |-> r.bins, oor |-> r.oor])
+  /\ IF which = 1
+     THEN bins' = r.bins /\ oor' = r.oor /\ total' = total + w /\ UNCHANGED <<bins2, oor2, total2>>
+     ELSE bins2' = r.bins /\ oor2' = r.oor /\ total2' = total2 + w /\ UNCHANGED <<bins, oor, total>>
+  /\ n' = n + 1
+  /\ h' = Append(h, [c |-> c, w |-> w, idx |-> IdxVec(c, edges), bins |-> r.bins, oor |-> r.oor,
+                     which |-> which, ok |-> TRUE, bad |-> ""])
   /\ UNCHANGED <<kind, edges>>
 
 \* histogram.fill(coord, weight=1)
-Fill == kind = "structure" /\ \E c \in Coords(edges), w \in Weights : DoFill(c, w)
+Fill == kind = "structure" /\ \E c \in Coords(edges), w \in Weights, which \in Whichs : DoFill(c, w, which)
 \* Histogram.fill(value): data of the value with weight 1
-ElemFill == kind = "element" /\ \E c \in Coords(edges) : DoFill(c, 1)
+ElemFill == kind = "element" /\ \E c \in Coords(edges), which \in Whichs : DoFill(c, 1, which)
+\* a coordinate of the wrong dimension: get_bin_on_value - "arg and edges must have the same length (otherwise
+\* LenaValueError is raised)"; nothing is filled, the histogram stays usable.
+\* forms: one coordinate too few / too many, none at all, (one dimension) the number wrapped in a list
+BadForms == IF Len(edges) = 1 THEN {"listed", "empty"} ELSE {"short", "long", "empty"}
+BadFill == /\ n < MaxFills /\ n' = n + 1
+           /\ \E form \in BadForms, which \in Whichs :
+                h' = Append(h, [c |-> <<>>, w |-> 1, idx |-> <<>>, bins |-> IF which = 1 THEN bins ELSE bins2,
+                                oor |-> IF which = 1 THEN oor ELSE oor2, which |-> which, ok |-> FALSE, bad |-> form])
+           /\ UNCHANGED <<kind, edges, bins, oor, total, bins2, oor2, total2>>
 
-Next == Fill \/ ElemFill
+Next == Fill \/ ElemFill \/ BadFill
 Spec == Init /\ [][Next]_vars
 
 (***************************************************************************)
@@ -81,7 +100,7 @@ Spec == Init /\ [][Next]_vars
 (***************************************************************************)
 TypeOK == AllIncreasing(edges) /\ ShapeOK(bins, edges, 1)
 \* "the sum of all bins plus n_out_of_range always equals the total filled weight"
-Conservation == SumB(bins, Len(edges)) + oor = total
+Conservation == SumB(bins, Len(edges)) + oor = total /\ SumB(bins2, Len(edges)) + oor2 = total2
 \* every coordinate lies in at most one cell, and in none exactly when some index is an under/overflow
 \* (they depend on the edges only: evaluated once per edge configuration)
 OneCell == n = 0 => \A c \in Coords(edges) :
@@ -98,17 +117,21 @@ HalfOpen == n = 0 => \A d \in 1..Len(edges) : \A x \in CoordVals(edges[d]) :
                  /\ (0 <= i /\ i < NB(e)) => e[i + 1] <= x /\ x < e[i + 2]
 \* each fill adds the weight to exactly the right cell or to n_out_of_range and changes nothing else
 \* (the coordinate and weight of the step are the last entry of the ghost history)
+\* A fill of one histogram leaves the other (made from the same edges) alone; a fill that raises changes nothing.
 ExactlyOne == [][LET f == h'[Len(h')] IN
-                   /\ Len(h') = Len(h) + 1
-                   /\ FillRefOK(bins, oor, bins', oor', edges, f.c, f.w)
-                   /\ total' = total + f.w /\ edges' = edges /\ kind' = kind
-                   /\ kind = "element" => f.w = 1]_vars
+                   /\ Len(h') = Len(h) + 1 /\ edges' = edges /\ kind' = kind
+                   /\ ~f.ok => UNCHANGED <<bins, oor, total, bins2, oor2, total2>>
+                   /\ (f.ok /\ f.which = 1) => /\ FillRefOK(bins, oor, bins', oor', edges, f.c, f.w) /\ total' = total + f.w
+                                               /\ UNCHANGED <<bins2, oor2, total2>>
+                   /\ (f.ok /\ f.which = 2) => /\ FillRefOK(bins2, oor2, bins2', oor2', edges, f.c, f.w) /\ total2' = total2 + f.w
+                                               /\ UNCHANGED <<bins, oor, total>>
+                   /\ (f.ok /\ kind = "element") => f.w = 1]_vars
 \* the whole history at once (export configs, where h is part of the state):
 \* every cell holds the weight of the fills that fell into it
-RefCell(cell) == SumSeq([k \in 1..Len(h) |-> IF Inside(h[k].c, cell, edges) THEN h[k].w ELSE 0])
-RefOor == SumSeq([k \in 1..Len(h) |-> IF CellsOf(h[k].c, edges) = {} THEN h[k].w ELSE 0])
-HistoryRef == /\ \A cell \in Cells(edges) : Get(bins, cell) = RefCell(cell)
-              /\ oor = RefOor
+RefCell(cell, wh) == SumSeq([k \in 1..Len(h) |-> IF h[k].ok /\ h[k].which = wh /\ Inside(h[k].c, cell, edges) THEN h[k].w ELSE 0])
+RefOor(wh) == SumSeq([k \in 1..Len(h) |-> IF h[k].ok /\ h[k].which = wh /\ CellsOf(h[k].c, edges) = {} THEN h[k].w ELSE 0])
+HistoryRef == /\ \A cell \in Cells(edges) : Get(bins, cell) = RefCell(cell, 1) /\ Get(bins2, cell) = RefCell(cell, 2)
+              /\ oor = RefOor(1) /\ oor2 = RefOor(2)
               /\ Len(h) = n
 
 Emitted == (n = MaxFills) => PrintT(ToJson([kind |-> kind, edges |-> edges, fills |-> h]))
